@@ -22,6 +22,7 @@
 #include <cstdarg>
 #include <cstring>
 #include <optional>
+#include <functional>
 #include <set>
 #include <sstream>
 
@@ -985,6 +986,50 @@ Family(const std::string &f)
   } else if (f == "list2" && kCap >= 2) {
     with_prefixes("W0:L V P V D | W1:L V D | K:F F", {255, 511, 767});
     with_prefixes("W0:L V P V D | W1:C P D | K:F F B256", {255, 511});
+  } else if (f == "gen1" || f == "gen1s" || f == "gen1q") {
+    // systematic: every well-formed worker script over {C,L,E,V,P,D} (gen1q: plus the observers Q,N) up to 5 (gen1s,
+    // gen1q: 4) operations (one guard at a time, E/V/D need a guard, V a list) against every coordinator script of a
+    // small set, at a node boundary and away from one
+    const size_t maxlen = f == "gen1" ? 5 : 4;
+    const std::string alphabet = f == "gen1q" ? "CLEVPDQN" : "CLEVPD";
+    std::vector<std::string> scripts;
+    std::function<void(std::vector<char> &, bool, bool, bool)> rec = [&](std::vector<char> &cur, bool guard, bool list, bool any) {
+      if (!cur.empty() && any && cur.back() != 'P') {
+        std::string t;
+        for (char c : cur) t += std::string(t.empty() ? "" : " ") + c;
+        scripts.push_back(t);
+      }
+      if (cur.size() >= maxlen) return;
+      for (char c : alphabet) {
+        if ((c == 'C' || c == 'L') && guard) continue;
+        if ((c == 'E' || c == 'D') && !guard) continue;
+        if (c == 'V' && !list) continue;
+        if (c == 'P' && (cur.empty() || cur.back() == 'P' || !guard)) continue;
+        if ((c == 'Q' || c == 'N') && !cur.empty() && (cur.back() == 'Q' || cur.back() == 'N')) continue;
+        if ((c == 'E' || c == 'V') && !cur.empty() && cur.back() == c) continue;
+        cur.push_back(c);
+        const bool g2 = (c == 'C' || c == 'L') ? true : (c == 'D' ? false : guard);
+        const bool l2 = c == 'L' ? true : ((c == 'C' || c == 'D') ? false : list);
+        rec(cur, g2, l2, any || c == 'C' || c == 'L');
+        cur.pop_back();
+      }
+    };
+    std::vector<char> cur;
+    rec(cur, false, false, false);
+    const std::vector<std::string> coords = f == "gen1"    ? std::vector<std::string>{"F", "F F", "F F F", "F B256", "B256 F", "F N Q F"}
+                                            : f == "gen1q" ? std::vector<std::string>{"F F", "F N Q F"}
+                                                           : std::vector<std::string>{"F F", "F B256"};
+    const std::vector<int> ks = f == "gen1" ? std::vector<int>{0, 255, 511} : f == "gen1q" ? std::vector<int>{0, 255} : std::vector<int>{255};
+    for (auto &w : scripts)
+      for (auto &k : coords) with_prefixes("W0:" + w + " | K:" + k, ks);
+  } else if (f == "gen2" && kCap >= 2) {
+    // two workers with short scripts (all unordered pairs), coordinator F F, at a node boundary
+    const std::vector<std::string> ws = {"C D", "C P D", "C E D", "L V D", "L P V D", "C P", "L V", "Q N"};
+    for (size_t i = 0; i < ws.size(); ++i)
+      for (size_t j = i; j < ws.size(); ++j) {
+        with_prefixes("W0:" + ws[i] + " | W1:" + ws[j] + " | K:F F", {255});
+        with_prefixes("W0:" + ws[i] + " | W0:" + ws[j] + " | K:F F", {255});  // identical probe starts
+      }
   } else if (f == "public" && kCap >= 2) {  // coordinator reads through the public API
     with_prefixes("W0:C P E P D | K:F G F G", {0, 255});
     with_prefixes("W0:L V P V D | K:F G", {255, 511});
